@@ -32,6 +32,7 @@ def parseAct (ws : List String) : Option Act :=
   | ["counts", a] => a.toNat?.map .counts
   | ["wcounts", a] => a.toNat?.map .wcounts
   | ["setPanic", a] => a.toNat?.map .setPanic
+  | ["setShallow", a] => a.toNat?.map .setShallow
   | ["upgradeField", a] => a.toNat?.map .upgradeField
   | ["cloneField", a] => a.toNat?.map .cloneField
   | _ => none
@@ -76,6 +77,7 @@ def actText : Act → String
   | .counts a => s!"counts {a}"
   | .wcounts a => s!"wcounts {a}"
   | .setPanic a => s!"setPanic {a}"
+  | .setShallow a => s!"setShallow {a}"
   | .upgradeField a => s!"upgradeField {a}"
   | .cloneField a => s!"cloneField {a}"
 
